@@ -6,7 +6,7 @@ from selkit import *
 ID = "C23"
 GEN = []
 THEOREMS = ["C23_extends", "C23_refl", "C23_refl_list", "C23_contains", "C23_add_simple", "C23_add_ancestor",
-            "C23_run_clause", "C23_trans_compound_partial", "C23_trans_list_lift", "C23_trans_flat_lists_partial"]
+            "C23_run_clause", "C23_directions_agree", "C23_trans", "C23_trans_compound", "C23_trans_list"]
 COQ_HEADER = ("From Coq Require Import List NArith ZArith.\nFrom RV Require Import Model.Sel Run.C23.\n"
               "Import ListNotations.\nLocal Open Scope list_scope.")
 RUN_EXPR = "Run.C23.run"
@@ -22,8 +22,7 @@ TRUSTED = ["props/selkit.py prints the structured selector as source text; the C
            "rsass parser is expected to build from it (a wrong expectation shows up as a correspondence failure)",
            "Run/C23.v extends_b: the decidable reading of 'obtained by adding simple selectors / ancestors / parents'"]
 ASSUMPTIONS = ["names are ASCII identifiers without escapes; attribute values without escapes",
-               "transitivity is proved for compound selectors without selector-argument pseudos and lifted to lists; "
-               "for complex selectors it is tested on generated chains only"]
+               "transitivity is proved for all selectors of the model (induction on the total size of three selectors)"]
 
 
 def rnd_simple(rng, c, depth=1):
@@ -285,9 +284,9 @@ def judge(c, io, r):
 LEVEL_TEXT = ("proof: structural/nested induction over all selectors of the model of is_superselector on Selector / "
               "CompoundSelector / Pseudo / Arg / SelectorSet (both argument orders, because `:not` swaps them): "
               "reflexivity, a list is a superselector of each member, and of every extension of a member by added simple "
-              "selectors (not pseudo-elements) and by added root ancestors/parents; transitivity proved at the compound "
-              "level without selector pseudos and lifted to lists, tested on generated chains for complex selectors; "
+              "selectors (not pseudo-elements) and by added root ancestors/parents; transitivity for ALL complex selectors and "
+              "lists (induction on the total size, walks replayed along the middle selector's chain); the two recursive "
+              "definitions of the relation (needed because `:not` swaps the arguments) proved equal; "
               "model tied to the code by correspondence through selector.is-superselector")
-LEVEL_NOTE = ("trusted: Coq kernel+vm_compute, the harness, the python printer of structured selectors; transitivity for "
-              "complex selectors with combinators is tested, not proved (partial)")
+LEVEL_NOTE = ("trusted: Coq kernel+vm_compute, the harness, the python printer of structured selectors")
 TECHNIQUE = "Coq proof (nested structural induction) + differential correspondence on generated selector pairs/triples"
